@@ -45,6 +45,8 @@ def gen_scenario(rng, tier, big=False):
         scn['max_parallel_tasks'] = rng.choice([2, 3, 8])
     scn['_delays'] = rng.choice([0, 0, 1, 3])          # max ms
     scn['_dseed'] = rng.randrange(1 << 30)
+    if not big and rng.random() < 0.25:
+        scn['_pre_run'] = True
     if not big and rng.random() < (0.08 if tier == 'quick' else 0.2):
         # small files only: every queue-full event costs the worker a 1 s back-off
         scn['_patch'] = {'RESULTS_QUEUE_SIZE': 5, 'NUM_BUFFERED_RESULTS': 7}
@@ -193,6 +195,21 @@ def run_mp(scn):
             patch(SR, k, v)
     try:
         built = S.Built(scn, tmpdir)
+        if scn.get('_pre_run'):
+            # the caller's definition objects were used before, by an in-process search of the
+            # first file alone: the parallel run still equals each file searched alone
+            fs0 = SR.FileSearcher(decode_errors=scn.get('decode_errors'))
+            p0 = os.path.join(tmpdir, scn['files'][0]['name'])
+            for r in scn['regs']:
+                if r[1] == 0:
+                    fs0.add(built.defs[r[0]], p0)
+            if fs0.files:
+                try:
+                    with core.time_limit(core.SINGLE_LIMIT):
+                        fs0.run()
+                except Exception:  # pylint: disable=broad-except
+                    pass
+            os.ftruncate(fd, 0)        # the hand-over trace is that of the parallel run only
         fs = built.searcher()
         obs = S.run_searcher(built, fs, S.scenario_K(scn))
         os.close(fd)
